@@ -119,6 +119,17 @@ func enumObligations(fn *ssa.Function) []bndOb {
 			if cc.IsInvoke() && (strings.HasPrefix(cc.Method.Name(), "Panic") || strings.HasPrefix(cc.Method.Name(), "Fatal")) && strings.Contains(cc.Value.Type().String(), "logrus") {
 				add(in, "abort", cc.Method.Name())
 			}
+			// standard-library functions that panic on arguments out of their domain
+			switch {
+			case strings.HasPrefix(name, "slices.Min"), strings.HasPrefix(name, "slices.Max"):
+				add(in, "libpanic", "nonempty:"+shortCallee(x)+"("+pathOf(cc.Args[0])+")")
+			case name == "strings.Repeat" || name == "bytes.Repeat":
+				if _, isC := cc.Args[1].(*ssa.Const); !isC {
+					add(in, "libpanic", "count>=0:"+shortCallee(x)+"("+pathOf(cc.Args[1])+")")
+				}
+			case strings.HasPrefix(name, "slices.Delete["):
+				add(in, "libpanic", "range:"+shortCallee(x)+"("+pathOf(cc.Args[1])+","+pathOf(cc.Args[2])+")")
+			}
 			if strings.HasPrefix(name, "github.com/sirupsen/logrus.Panic") || strings.HasPrefix(name, "github.com/sirupsen/logrus.Fatal") || strings.Contains(name, "logrus.Entry).Panic") || strings.Contains(name, "logrus.Entry).Fatal") || strings.Contains(name, "logrus.Logger).Panic") || strings.Contains(name, "logrus.Logger).Fatal") || name == "os.Exit" {
 				add(in, "abort", shortCallee(x))
 			}
